@@ -4,6 +4,7 @@ package mux
 
 import (
 	"net/http"
+	"strings"
 
 	zzv "github.com/issue9/mux/v9/internal/zzverif"
 	"github.com/issue9/mux/v9/types"
@@ -101,6 +102,12 @@ func ZZC05Host(n int) {
 // ZZC05Ver(n): version matchers on any path / a table of Accept headers.
 func ZZC05Ver(n int) {
 	pv := NewPathVersion("v", "v1", "/v2", "v11/")
+	switch zzv.Choice("versions", 3) {
+	case 1:
+		pv = NewPathVersion("v") // no version listed (allowed)
+	case 2:
+		pv = NewPathVersion("", "/")
+	}
 	path := zzv.Bytes("p", n)
 	req := zzReq("GET", path)
 	ctx := types.NewContext()
@@ -112,6 +119,12 @@ func ZZC05Ver(n int) {
 // ZZC05Pat(n): every pattern string of <= n bytes.
 func ZZC05Pat(n int) {
 	pat := zzv.Bytes("pat", n)
+	switch zzv.Choice("long", 3) { // ... or a static / parameterised pattern longer than the documented segment limit
+	case 1:
+		pat = "/a" + strings.Repeat("x", 40000)
+	case 2:
+		pat = "/b/{" + strings.Repeat("n", 33000) + "}"
+	}
 	var synErr error
 	p, _ := zzGuard(func() { synErr = CheckSyntax(pat) })
 	zzv.Assert(!p, "pattern:CheckSyntax-panics")
@@ -144,6 +157,11 @@ func ZZC05Pat(n int) {
 		zzv.Assert(synErr == nil, "pattern:Handle-registers-what-CheckSyntax-rejects")
 		_, listed := r.Routes()[pat]
 		zzv.Assert(listed, "pattern:registered-pattern-not-in-Routes")
+		// an accepted pattern does not poison later, unrelated registrations
+		p, _ = zzGuard(func() { r.Handle("/zz/{q}", &hnd{id: 5}, nil, http.MethodPut) })
+		zzv.Assert(!p, "pattern:a-later-valid-registration-panics")
+		o, _ := zzServe(r, zzReq("PUT", "/zz/1"))
+		zzv.Assert(o.id == 5 || (o.node && o.pattern == pat), "pattern:a-later-valid-registration-is-not-served") // (pat itself may have priority)
 	}
 
 	// Handle on a router that already has routes (splits, ambiguity check): no runtime fault
@@ -160,7 +178,8 @@ func ZZC05Pat(n int) {
 	}
 }
 
-var zzRuleAlphabets = [][]string{{"a", "(", ")", "|", "?", "*", "\\", "b"}, {"a", "(", ")", "|", "b"}}
+var zzRuleAlphabets = [][]string{{"a", "(", ")", "|", "?", "*", "\\", "b"}, {"a", "(", ")", "|", "b"},
+	{"[(]", "[)]", "(", ")", "|", "a"}} // 2: parentheses hidden in character classes
 
 // ZZC05Rule(n): patterns whose regexp rule is every string of <= n/10 symbols over a small
 // alphabet of metacharacters; every pattern Handle accepts must then serve every path of
